@@ -147,7 +147,9 @@ def make_pairs(ctx, ck, rules, text, L, nsample, Lall, tag, reuse=False):
     base = K.names_upto(alpha, L)
     names = list(base) + [n + [K.DIGEST] for n in base]
     nb = len(base)
-    hit = [i for i, n in enumerate(base) if n and K.run_match(ck, n)[1]]
+    nres = {i: len(K.run_match(ck, n)[1]) for i, n in enumerate(base) if n}
+    hit = [i for i in sorted(nres) if nres[i]]
+    multi = [i for i in hit if nres[i] >= 2]      # names satisfying several definitions / rules (several packet nodes)
     short = [i for i, n in enumerate(base) if len(n) <= Lall]
     ask = set()
     for a in short:
@@ -161,7 +163,10 @@ def make_pairs(ctx, ck, rules, text, L, nsample, Lall, tag, reuse=False):
             ask.add((a, b))
     # packets that match a rule against EVERY key name: a key may match its rule only with the bindings carried
     # over from the packet (constraints naming patterns of the packet rule), so it need not be in `hit`
-    for a in (hit if len(hit) <= 20 else rng.sample(hit, 20)):
+    # (names that satisfy several definitions first: the answer is an OR over packet nodes with their own bindings)
+    first = multi if len(multi) <= 12 else rng.sample(multi, 12)
+    rest = [i for i in hit if i not in first]
+    for a in first + (rest if len(rest) <= 20 - len(first) else rng.sample(rest, 20 - len(first))):
         for b in allidx:
             ask.add((a, b))
     for _ in range(nsample):
@@ -185,6 +190,12 @@ def make_pairs(ctx, ck, rules, text, L, nsample, Lall, tag, reuse=False):
         st, res = (K.run_check_reused(ck, bufp, bufk, names[a], names[b]) if reuse
                    else K.run_check(ck, names[a], names[b]))
         ctx.evaluations += 1
+        if st.startswith('NotBool'):
+            ctx.violation('C12/Checker.check/return-type/%s' % st,
+                          'Checker.check(%r, %r) returns %s, not a bool; schema\n%s'
+                          % ('/' + '/'.join(names[a]), '/' + '/'.join(names[b]), st, text),
+                          {'kind': 'text', 'text': text, 'pkt': names[a], 'key': names[b]})
+            st = 'ok'
         if st != 'ok':
             empty = (not names[a]) or (not names[b])
             ctx.violation('C12/Checker.check/%s/%s' % ('empty-name' if empty else 'name', st),
@@ -203,7 +214,7 @@ def stage_c(ctx, procs):
     L = ctx.pick(3, 4)
     Lall = 2
     nsample = ctx.pick(500, 5000)
-    gen = K.Gen(ctx.rng, signing=0.85, p_forward=0.2, p_redef=0.3, p_twin=0.6, force_twin=0.6, carried=0.5)
+    gen = K.Gen(ctx.rng, signing=0.85, p_forward=0.2, p_redef=0.3, p_twin=0.6, force_twin=0.6, carried=0.5, dual=0.5)
     recs, rejected, sid, nyes = [], 0, 0, 0
     while len(recs) < n and sid < 4 * n:
         sid += 1
